@@ -202,6 +202,9 @@ C_Handle(ev) ==
     /\ (Grew(ev) => ev.postdata = 1 /\ ev.postsize = SIZEOF /\ ev.blocksize >= SIZEOF)
     \* "zero-initialised after": a block that was grown (moved or resized in place) comes back with its application fields cleared
     /\ ((Grew(ev) /\ "appzero" \in DOMAIN ev) => ev.appzero = 1)
+    \* ... whatever the call then did: after a grow everything behind the output field is zero (a call that fails before
+    \* any wiping must not leave the allocator's old contents in reserved/internal)
+    /\ ((Grew(ev) /\ "tailzero" \in DOMAIN ev) => ev.tailzero = 1)
     /\ (~Grew(ev) => ev.moved = 0 /\ ev.postsize = ev.presize)
     /\ (ev.ret = "out" => ev.postdata = 1 /\ ev.blocksize >= SIZEOF)
     /\ ev.ret \in {"null", "out"}
